@@ -41,6 +41,8 @@ Inductive role : Type :=
 | RTimer          (* time.After, Timer.C, Ticker.C, Context.Done() *)
 | RStoppedBroker | RStoppedDealer | RStoppedRealm | RStoppedRouter  (* X.stopped *)
 | RMetaDone       (* realm.metaDone *)
+| RMetaStop       (* realm.metaStop (after the proposed repair) *)
+| RRouterQuit     (* router.quit (after the proposed repair) *)
 | RMemStats       (* router.stopMemStats / memStatsStopped *)
 | RPeerWr | RPeerRd | RPeerClosed | RPeerWriterDone | RPeerRecvDone  (* transport-internal channels *)
 | RCloseLock      (* realm.closeLock *)
@@ -110,6 +112,7 @@ Definition role_eqb (a b : role) : bool :=
   | RLocal, RLocal | RTimer, RTimer | RStoppedBroker, RStoppedBroker
   | RStoppedDealer, RStoppedDealer | RStoppedRealm, RStoppedRealm
   | RStoppedRouter, RStoppedRouter | RMetaDone, RMetaDone | RMemStats, RMemStats
+  | RMetaStop, RMetaStop | RRouterQuit, RRouterQuit
   | RPeerWr, RPeerWr | RPeerRd, RPeerRd | RPeerClosed, RPeerClosed
   | RPeerWriterDone, RPeerWriterDone | RPeerRecvDone, RPeerRecvDone
   | RCloseLock, RCloseLock | RSessMutex, RSessMutex | RWgHandlers, RWgHandlers
